@@ -43,7 +43,7 @@ func c14R8(c *Ctx) {
 		if callName(fmts[0].Common()) == "strconv.AppendFloat" {
 			a = a[1:]
 		}
-		vo := p.Origin(a[0])
+		vo := p.Inlined(p.Origin(a[0]))
 		direct := vo.Kind == "param" && vo.Param == 0 || vo.Kind == "unop" && vo.Base != nil && vo.Base.Kind == "param" || vo.Val != nil && func() bool {
 			root := stripConv(vo.Val)
 			if ld, ok := root.(*ssa.UnOp); ok && ld.Op == token.MUL {
